@@ -86,6 +86,9 @@ func VPH_C12_rules_failclosed() {
 		opts["deny"] = deny
 	}
 	vp.Assume(allow != "" || deny != "")
+	if vp.Param("ITEMS") == 1 {
+		vp.Assume(!strings.Contains(allow, ",") && !strings.Contains(deny, ","))
+	}
 	r := &Route{Host: "h", Path: "/"}
 	vpAddTargetOpts(r, opts)
 	vp.Assert(len(r.Targets) == 1, "target-added")
@@ -154,7 +157,7 @@ func VPH_C12_http_xff() {
 	x1, x2 := vp.String("xff1"), vp.String("xff2")
 	vp.Assume(!strings.Contains(x1, ",") && !strings.Contains(x2, ","))
 	xff := x1
-	if vp.Bool("two") {
+	if vp.Param("TWO") == 1 && vp.Bool("two") {
 		xff = x1 + "," + x2
 	}
 	req := &http.Request{RemoteAddr: "10.1.2.3:4711", Header: http.Header{"X-Forwarded-For": {xff}}}
